@@ -8,8 +8,8 @@ V = "/verif"
 CHECKS = {
  "C01": (True, "gpbftmc", "model_checking",
   "explicit-state deviation-bounded exploration of real gpbft.Participant objects (state-key pruned DFS, Byzantine message generator)",
-  "All executions of 3-4 real participants (equal, weighted and dust power tables; forked / prefixed inputs; 1-2 instances) with at most K deviations (delay, hold, drop, duplicate, early timer, one Byzantine message incl. equivocation with justifications assembled from observed votes) from the synchronous schedule are enumerated; on every reported decision all honest decisions of the instance must be equal. A coverage statement over schedules and fault sequences, which is what agreement quantifies over.",
-  "fake signing backend; N<=4, one Byzantine identity < 1/3; rounds <= scenario bound; K as reported in evidence; state key abstracts justifications to (phase,round,value)",
+  "All executions of 3-4 real participants (equal, weighted and dust power tables; forked / prefixed inputs; 1-2 instances) with at most K deviations (delay, hold, drop, duplicate, early timer, one Byzantine message incl. equivocation with justifications assembled from observed votes) from the synchronous schedule, and around lagging / late-starting / partitioned / slow-link base schedules, are enumerated; on every reported decision all honest decisions of the instance must be equal. Byzantine plans deliver through the two-stage (partial, then full) validation route, the others one-shot. In every expanded state the real validators are additionally probed with forged messages (spoofed sender, junk / under-powered / mismatched certificate, sender-swapped replay; twice, both routes); a forgery that a validator accepts becomes a free Byzantine action (at most 2 per execution) whose consequences the same monitors judge. A coverage statement over schedules and fault sequences, which is what agreement quantifies over.",
+  "fake signing backend (aggregates bound to the key set); N<=6, one Byzantine identity < 1/3; rounds <= scenario bound; K as reported in evidence; state key abstracts justifications to (phase,round,value); probe verdicts are memoised per (scenario, target, target progress, forgery content)",
   "DESIGN §2.3, §3 C01"),
  "C02": (True, "gpbftmc", "model_checking",
   "explicit-state deviation-bounded exploration of real gpbft.Participant objects with validity monitor",
@@ -17,15 +17,15 @@ CHECKS = {
   "as C01", "DESIGN §3 C02"),
  "C03": (True, "gpbftmc", "model_checking",
   "explicit-state deviation-bounded exploration; every decision checked by an independent proof verifier and certs.ValidateFinalityCertificates",
-  "Every decision of every explored execution (incl. weighted and zero-scaled-power tables) is checked: instance/round 0/DECIDE/supplemental data, distinct in-range non-zero-power signers, strong quorum by exact arithmetic, aggregate verifies over the decided value, and the derived finality certificate validates on a fresh node.",
-  "as C01", "DESIGN §3 C03"),
+  "Every decision of every explored execution (incl. weighted and zero-scaled-power tables) is checked: instance/round 0/DECIDE/supplemental data, distinct in-range non-zero-power signers, strong quorum by exact arithmetic, aggregate verifies over the decided value, and the derived finality certificate validates on a fresh node. Host half (auxiliary pass, folded into the evidence): every history of <=6 (8) decisions finalizing 0-2 tipsets each, x committee look-back {2,3,5} x initial instance {0,7}, over a model EC whose power table changes every epoch, goes through the production gpbftHost.saveDecision; the certificate must carry the delta between the two committees, chain-validate on an independent validator and be the store's latest.",
+  "as C01; host half: model EC backend, in-memory certificate store, decisions signed by the minimal quorum", "DESIGN §3 C03"),
  "C06": (True, "gpbftmc", "model_checking",
   "bounded-liveness exploration: all <=K pre-stabilisation deviations followed by the synchronous schedule on real participants",
-  "Every execution = at most K pre-stabilisation deviations (no honest-to-honest loss) followed by the synchronous default schedule; all started honest participants must decide before any honest round exceeds R+6 (no Byzantine message) / R+40, and no execution may go quiescent undecided.",
+  "Every execution = at most K pre-stabilisation deviations (no honest-to-honest loss) followed by the synchronous default schedule; all started honest participants must decide before any honest round exceeds R+6 (no Byzantine message) / R+40, no execution may go quiescent undecided, and none may stall (no participant changing round or step during 1500 consecutive timer/delivery events with nothing withheld). Base schedules include lagging, late-starting (everything queued at start) and slow-link ones; Byzantine and policy plans deliver through the two-stage validation route.",
   "post-stabilisation behaviour = zero-latency synchronous schedule; as C01 otherwise", "DESIGN §3 C06"),
  "C07": (True, "gpbftmc", "model_checking",
   "explicit-state deviation-bounded exploration with a per-participant reference tally of delivered votes (rules 1-8)",
-  "Every broadcast and every step of every explored execution is checked against a boring reference tally of what was delivered to that participant: one message per slot, peer-acceptable, monotone progress, no internal error/panic, PREPARE(0) = longest quorum-backed input prefix, best-ticket CONVERGE prefix adopted, no COMMIT bottom with/ before a possible PREPARE quorum, votes only for own-input prefixes or proven values.",
+  "Every broadcast and every step of every explored execution is checked against a boring reference tally of what was delivered to that participant: one message per slot, peer-acceptable, monotone progress, no internal error/panic, PREPARE(0) = longest quorum-backed input prefix, best-ticket CONVERGE prefix adopted, no COMMIT bottom with/ before a possible PREPARE quorum, votes only for own-input prefixes or proven values; an error out of ReceiveAlarm (incl. a late-binding validation error escaping the queue drain) is an internal error.",
   "as C01; monitor state is part of the pruning key", "DESIGN §3 C07"),
  "C08": (True, "quorumenum", "exploration",
   "exhaustive enumeration of the finite quorum-arithmetic domain against exact integer/rational arithmetic",
@@ -42,14 +42,14 @@ CHECKS = {
  "C09": (True, "certstoremc", "model_checking",
   "explicit-state BFS over operation histories of the real certstore.Store against an in-memory reference model",
   "Breadth-first search over all operation sequences (create/open variants, 13 kinds of put incl. every delta shape and every rejection class, subscribe/receive/unsubscribe) to depth 6 (thorough 8), deduplicated on reference+subscription state; after every step every observable (Get, GetRange, Latest, GetPowerTable for first-1..latest+2, subscriber channels) is compared with a boring reference store; checkpoints are crossed densely (frequency 3) and once at the real 1440 boundary.",
-  "sequential histories only (the concurrent-readers/writers clause is not decided by this check); in-memory datastore; checkpoint frequency lowered via injected accessor", "DESIGN §3 C09"),
+  "the concurrent-readers/writers clause is decided by the interleaving pass (engine E2: two writers, a reader and a subscriber on the source-instrumented store, all schedules with <=2 preemptions, plus a free-running race-detector pass); in-memory datastore; checkpoint frequency lowered via injected accessor", "DESIGN §3 C09"),
  "C10": (True, "certstoremc", "fault_enumeration",
   "exhaustive crash-point enumeration over the recorded datastore write log of every operation of every history",
   "For every history and every final operation (create, put incl. checkpoint puts, wipe) every prefix of the operation's datastore Put/Delete log is materialised into a fresh datastore and reopened with each open variant; the observable state must equal the reference before or after the operation, the operation must be repeatable, the recovered store must keep working across further puts and another restart, and an interrupted wipe must be completed leaving no key behind.",
   "crash = stop between two datastore writes, single writes atomic; in-memory datastore", "DESIGN §3 C10"),
  "C17": (True, "certstoremc", "exploration",
   "bounded-exhaustive enumeration of stores, export end points and snapshot corruptions (every truncation, every block-level edit)",
-  "All stores of a grid (first instance, length, delta patterns, checkpoint frequency 3 plus one 1445-certificate store at the production frequency) are exported at every end point and re-imported: the imported store must be observationally identical and the digest must be the blake2b-256 of the bytes; every byte truncation, dropped/duplicated/swapped/surplus block, header or manifest disagreement and altered (also compensated) delta must be rejected without panic.",
+  "All stores of a grid (first instance, length, delta patterns, checkpoint frequency 3 plus one 1445-certificate store at the production frequency) are exported at every end point and re-imported: the imported store must be observationally identical and the digest must be the blake2b-256 of the bytes; every byte truncation, dropped/duplicated/swapped/surplus block, empty block at every position (alone or followed by surplus / repeat / garbage), header or manifest disagreement (incl. a permuted or duplicated header table against a pinning manifest) and altered (also compensated) delta must be rejected without panic.",
   "in-memory datastores; snapshots from the repository's exporter", "DESIGN §3 C17"),
  "C04": (True, "certsenum", "exploration",
   "bounded-exhaustive enumeration of corrupted certificate chains and of a complete small power-table universe against independent reference predicates",
@@ -58,19 +58,19 @@ CHECKS = {
  "C05": (True, "valenum", "model_checking",
   "exhaustive enumeration of the message space (valid shapes and all <=2-field deviations) x progress states, plus explicit-state exploration of all cache histories of length <=2 on the production validator",
   "One valid message per (step, round, value, justification kind) and every single and pair of field deviations (5.7k messages) are validated at 20 progress states by the production caching validator; verdicts are compared with an independent validity predicate and the statement's relevance rule (sound, complete when relevant, never branded invalid when valid). History independence: for every message, every sequence of <=2 earlier full/partial validations of its twins or a group eviction (cache sizes 64 and 2) must leave the verdict unchanged.",
-  "fake signing backend; fixed committee incl. a zero-scaled-power member; concurrent validation not explored (sequential histories only)", "DESIGN §3 C05"),
+  "fake signing backend; fixed committee incl. a zero-scaled-power member; concurrent validation: interleaving pass (engine E2) over the source-instrumented caches and the production progress cell — two validators and an evicting / progress-announcing thread, all schedules with <=2 preemptions, plus a free-running race-detector pass", "DESIGN §3 C05"),
  "C13": (True, "valenum", "model_checking",
   "exhaustive enumeration of messages x announced keys x completing chains through the two validation paths, plus cache-history exploration shared between them",
-  "For every message of the C05 space, three announced keys (matching, zero, other) and four completing chains (original, other, bottom, malformed), with the production stripper and with the justification left as sent: PartiallyValidate then FullyValidate accepts iff the key equals the chain's key and one-shot validation of the completed message accepts; strip then complete is the identity on valid messages; partial/full verdicts are independent of earlier validations on the same validator.",
-  "as C05; completion uses the production justification-value inference through an injected accessor", "DESIGN §3 C13"),
+  "For every message of the C05 space, three announced keys (matching, zero, other) and four completing chains (original, other, bottom, malformed), with the production stripper and with the justification left as sent: PartiallyValidate then FullyValidate accepts iff the key equals the chain's key and one-shot validation of the completed message accepts; strip then complete is the identity on valid messages; partial/full verdicts are independent of earlier validations on the same validator. Every message that passes the partial stage under its genuine key is also completed by a real, started PartialMessageManager on both of its routes (buffered until the chain is discovered; CompleteMessage with the chain already known): same verdict as one-shot validation of the completed message, and the original bytes for valid messages.",
+  "as C05; completion by the production inference (injected accessor) and by the production manager over a peerless gossipsub", "DESIGN §3 C13"),
  "C11": (True, "walcrash", "fault_enumeration",
   "exhaustive enumeration of operation histories on the real WAL with every torn-write image of the final append recovered and continued",
   "All sequences over {append small/large, rotate, close, purge, reopen} up to depth 4 (thorough 5) plus long rotating histories run on the real WriteAheadLog; after every step All() must equal the reference list of acknowledged, unpurged entries (nothing else, per-file order), purge must be conservative and complete (directory listing); for every history ending in an append every byte offset of that append is materialised as a torn file, recovered, read, continued with further appends/purge and reopened again.",
   "a crash tears only the final write; directory entries survive; wall-clock file names are opaque; tmpfs-backed directory", "DESIGN §3 C11"),
  "C12": (True, "equivmc", "model_checking",
   "explicit-state BFS over broadcast/rebroadcast/restart/crash histories on the production runner (filter -> WAL -> publish) with a synchronous wire observer",
-  "Breadth-first search over histories of conflicting broadcast requests (2 instances x 2 senders x slots x 2 signatures), rebroadcast requests, an old finality certificate (WAL purge), clean restarts, crash-restarts from the WAL image captured at the last publish and crashes in the middle of an append, on the real newRunner/BroadcastMessage/RequestRebroadcast/Stop over a real WAL directory and gossipsub topic. A pubsub default validator observes the wire synchronously inside Publish and snapshots the WAL: never two signatures per (instance, sender, round, step), never an older instance, every wire message already durable. The pure filter is additionally enumerated to depth 6/7 against a reference.",
-  "no storage errors, single node per identity; inbound topic validator removed; opaque signatures; one finalize event modelled through an accessor calling the production Purge", "DESIGN §3 C12"),
+  "Breadth-first search over histories of conflicting broadcast requests (2 instances x 2 senders x slots x 2 signatures), rebroadcast requests, finality certificates arriving (early network: up to instance 3; up to instance 6) through the node's certificate store and handled by the production finalize goroutine, clean restarts, crash-restarts from the WAL image captured at the last publish and crashes in the middle of an append, on the real newRunner/Start/BroadcastMessage/RequestRebroadcast/Stop over a real WAL directory and gossipsub topic. A pubsub default validator observes the wire synchronously inside Publish and snapshots the WAL: never two signatures per (instance, sender, round, step), never an older instance, every wire message already durable. The pure filter is additionally enumerated to depth 6/7 against a reference.",
+  "no storage errors, single node per identity; inbound topic validator removed; opaque signatures; mock clock that never advances (the participant stays idle, the harness decides what is broadcast); the finalize goroutine is stepped through ec.Finalize of the harness's EC and the rebroadcast-store mutex; broadcast requests are for instances above the latest certificate", "DESIGN §3 C12"),
  "C16": (True, "certexmc", "model_checking",
   "exhaustive enumeration of (store, request) pairs against the real server read by a raw wire reader, and of all responder scripts up to a depth against the real poller",
   "Server: every store of length 0..5 (7) at first instance 0 and 5 x every first / limit / power-table combination incl. boundary and overflowing values is served by the real certexchange.Server over mocknet and read both by a raw stream reader (everything on the wire) and by the production client; the response must be the byte-exact store slice, at most limit certificates, none at or beyond the advertised pending instance, the right power table. Poller: every script of up to 2 (3) behaviours out of 12 Byzantine/honest responder behaviours x client/peer holdings: the store must only gain genuine certificates, never beyond the valid in-sequence prefix sent, NextInstance must equal the store, and honest / illegal / lagging peers must be classified as such.",
@@ -82,7 +82,7 @@ CHECKS = {
  "C18": (True, "chainexmc", "model_checking",
   "explicit-state BFS over lookup / broadcast / flood / prune histories on the real chain exchange with property-level monitors",
   "Breadth-first search to depth 5 (thorough 7) over histories of lookups, own broadcasts, admitted remote broadcasts, remote broadcasts rejected for every reason in the statement, floods of capacity+1 unsolicited chains, prunes and a progress change on the real PubSubChainExchange (validator and caching routines called synchronously), deduplicated on both LRU caches in order: a lookup never returns a chain with another key or an unadmitted/pruned chain, every prefix is retrievable right after admission, inadmissible broadcasts are never admitted, an asked-for chain that was admitted survives floods while the wanted capacity holds, pruning removes exactly the lower instances.",
-  "no network: validator and caching routines driven through an injected accessor; sequential histories only (the lookup-vs-admit interleavings are not explored); mock clock", "DESIGN §3 C18"),
+  "no network: validator and caching routines driven through an injected accessor; the lookup-vs-admit-vs-own-broadcast interleavings are decided by the interleaving pass (engine E2, <=2 preemptions) plus a free-running race-detector pass; mock clock", "DESIGN §3 C18"),
  "C14": (True, "encenum", "exploration",
   "bounded-exhaustive enumeration of single-field perturbations of signed payloads for every chain length, and of all truncations / small byte deviations of valid encodings of every codec type",
   "For every chain length 1..128 every single-field perturbation of every tipset and payload field (and the VRF inputs) must change the bytes to sign, pairwise; chain keys computed directly, in batch and from cached prefixes must agree for every prefix of every length; 23 wire/storage shapes at boundary sizes round-trip deterministically through CBOR and ZSTD; every truncation, every 1-byte deviation (dense) and 2-byte boundary deviations (small encodings) of each valid encoding, inflated length headers at every position (16 MiB allocation cap) and over-expanding or corrupted ZSTD frames must decode to an error or a value without panicking.",
